@@ -49,6 +49,7 @@ def membership_fact(facts, which):
 
 def run(ctx):
     P = ctx.program()
+    whole_chain_conflict_scan(ctx, P, "R11")
     commit = P.fn("TransactionManager::commit")
     # R8: validation only reads the write sets (a refused commit leaves the transaction Active: whatever commit removed
     # from its write set is missing when it is validated again, and both overlapping writers end up committed)
@@ -259,3 +260,36 @@ def plumbing(ctx, P, which):
            what="TransactionManager::%s can return Ok without inserting the entity into TxInfo.%s (a path to the success value "
                 "that skips the insertion): the transaction is validated against an incomplete %s" % (which, setname, setname.replace("_", " ")),
            where=f.loc())
+
+
+
+def whole_chain_conflict_scan(ctx, P, rule):
+    """VersionChain::has_conflict answers "did anyone else write this entity after my snapshot". The asking transaction's own
+    version can be the newest one, with the concurrent writer's version behind it, so the scan must cover the whole
+    chain: an iteration over `versions`, never a look at one end (front/back/first/last/get)."""
+    n = 0
+    for f in sorted(P.fns.values(), key=lambda f: f.id):
+        if not (f.id.endswith("::has_conflict") and "mvcc::Version" in f.id) or f.kind == "closure":
+            continue
+        n += 1
+        ends = []
+        iters = 0
+        for g in P.family(f):
+            gx = FlowCx(P, g)
+            for bi, t in g.calls():
+                nm = (t.get("f") or callee_name(t)).split("::")[-1]
+                if not t["args"]:
+                    continue
+                tg = gx.tags(t["args"][0])
+                if not any(x.startswith("cell:") and x.endswith(".versions") for x in tg):
+                    continue
+                if nm in ("front", "back", "first", "last", "get", "front_mut", "back_mut", "pop_front", "pop_back"):
+                    ends.append((g, t["line"], nm))
+                if nm in ("iter", "into_iter", "iter_mut", "values", "range"):
+                    iters += 1
+        ok = not ends and iters > 0
+        ctx.ob(rule, "%s#whole-chain" % short_id(f.id), ok,
+               what="%s decides a write-write conflict from one end of the version chain (%s) instead of scanning it: when the asking "
+                    "transaction's own version is the newest, the concurrent writer's version behind it is never examined and both "
+                    "writers commit" % (short_id(f.id), ends[0][2] if ends else "no iteration over `versions`"), where=(ends[0][0].loc(ends[0][1]) if ends else f.loc()))
+    ctx.floor(rule, n, 1, "has_conflict implementations")
